@@ -271,7 +271,16 @@ def module_faults(run, rng, n):
             path = ValueList()
             path.addItem(ValueString(d))
             it.base_environment.put("checkerlang_module_path", path)
-            imp, iroles = parse_template(f"require {mname} ; {mname}:s0 ->:S0 boom ( 1 )")
+            # every import form: the error names the MODULE (mod:<file name>), whatever the importer calls it
+            form = k % 4
+            if form == 0:
+                imp, iroles = parse_template(f"require {mname} ; {mname}:s0 ->:S0 boom ( 1 )")
+            elif form == 1:
+                imp, iroles = parse_template(f"require {mname} as q{k} ; q{k}:s0 ->:S0 boom ( 1 )")
+            elif form == 2:
+                imp, iroles = parse_template(f"require {mname} import [ boom as bb{k} ] ; bb{k}:s0 (:S0 1 )")
+            else:
+                imp, iroles = parse_template(f"require {mname} unqualified ; boom:s0 (:S0 1 )")
             itext, ilines = layout(rng, imp)
             case = {"kind": "module", "module": mtext, "importer": itext}
             try:
@@ -286,7 +295,7 @@ def module_faults(run, rng, n):
                                   f"module-error-line: reports {e.pos}, the fault is on line {want} of mod:{mname}", case)
                     continue
                 ents = [ENTRY.search(str(s)) for s in e.stacktrace]
-                ents = [m for s, m in zip(e.stacktrace, ents) if m and str(s).startswith("boom(")]
+                ents = [m for s, m in zip(e.stacktrace, ents) if m and str(s).startswith(("boom(", f"bb{k}("))]
                 ok = {ilines[j] for j in iroles["S0"] + iroles["s0"]}
                 if not ents or ents[0].group(1) != FNAME or int(ents[0].group(2)) not in ok:
                     run.violation(f"module-stack:{itext!r}",
